@@ -4,6 +4,7 @@ Oracle: list-based reference models written from PROCESSORS.md + the property te
 compared with the raw datastream output (rows as dicts, schema as (name, type) list)."""
 import re
 import copy
+import decimal
 
 from hypothesis import strategies as st
 
@@ -65,6 +66,13 @@ def _pool_rows(draw, flds, max_rows, pool_size=3):
     pools = {}
     for f in flds:
         vals = draw(st.lists(gen.value(f['type'], hard=True), min_size=1, max_size=pool_size))
+        # values that are easily confused: equal hashes (-1/-2, 0/2**61-1), equal after str()/strip()
+        confusable = {'integer': [[-1, -2], [0, 2 ** 61 - 1], [1, 10]],
+                      'string': [['a', 'a '], ['1', '01'], ['', ' ']],
+                      'number': [[decimal.Decimal('1.0'), decimal.Decimal('1.00')], [decimal.Decimal('-1'), decimal.Decimal('-2')]],
+                      }.get(f['type'])
+        if confusable and draw(st.integers(0, 3)) == 0:
+            vals = vals + draw(st.sampled_from(confusable))
         pools[f['name']] = vals + [None]
     n = draw(st.integers(0, max_rows))
     rows = []
